@@ -232,7 +232,7 @@ func (c *Ctx) mergeStates(ss []*State) *State {
 			out.heap[k] = n
 		}
 		out.alloc = Ite(cond, s.alloc, out.alloc)
-		out.pc = Or(out.pc, s.pc)
+		out.pc = orFactored(out.pc, s.pc)
 		if s.nfact > out.nfact {
 			out.nfact = s.nfact
 		}
@@ -276,4 +276,42 @@ func freeBound(t *Term, memo map[int]map[int]bool) map[int]bool {
 	}
 	memo[t.id] = out
 	return out
+}
+
+func conjList(t *Term) []*Term {
+	if t.op == "and" {
+		return t.args
+	}
+	if t == True {
+		return nil
+	}
+	return []*Term{t}
+}
+
+// orFactored computes a \/ b, factoring out the conjuncts the two path conditions share
+// (after an if/else diamond the path condition is again that of the branch point).
+func orFactored(a, b *Term) *Term {
+	ca, cb := conjList(a), conjList(b)
+	inB := map[int]bool{}
+	for _, t := range cb {
+		inB[t.id] = true
+	}
+	var common, ra, rb []*Term
+	inCommon := map[int]bool{}
+	for _, t := range ca {
+		if inB[t.id] {
+			common = append(common, t)
+			inCommon[t.id] = true
+		} else {
+			ra = append(ra, t)
+		}
+	}
+	for _, t := range cb {
+		if !inCommon[t.id] {
+			rb = append(rb, t)
+		}
+	}
+	rest := Or(And(ra...), And(rb...))
+	// (x /\ c) \/ (x /\ not c): handled by Or when the remainders are single complementary literals
+	return And(append(common, rest)...)
 }
